@@ -705,6 +705,93 @@ func (w *World) WithWriterQueued(op func()) (fired bool) {
 	return true
 }
 
+// WithUploadDuringWrite runs op (normally the completion of an upload A)
+// with a second client's small upload B overlapping A's next data-device
+// write: the hook fires when that write has been issued but has not taken
+// effect yet; B runs on its own goroutine until it has completed or is
+// parked on a mutex (on the unchanged code: the mutex of the sector that A's
+// tail and B's head share, held by A for the duration of its write); then
+// A's write lands. B is joined after op has returned and recorded in the
+// model. Sharing a sector requires that B is allocated right behind A, which
+// is the case when nothing else was allocated since A's allocation. fired
+// reports whether a data write happened inside op; blocked whether B was
+// seen waiting for a mutex.
+func (w *World) WithUploadDuringWrite(sizeB, skip int, op func()) (fired, blocked bool) {
+	dev := w.St.Media.Data
+	if dev == nil || w.Cfg.Mutable {
+		op()
+		return false, false
+	}
+	w.FinishPendingFM()
+	var o *Obj
+	done := make(chan error, 1)
+	joined := false
+	var errB error
+	var hook func(off int64, p []byte)
+	hook = func(off int64, p []byte) {
+		if skip > 0 {
+			// (let the first `skip` writes of op pass)
+			skip--
+			dev.OnWriteInFlight = hook
+			return
+		}
+		fired = true
+		o = w.NewObject(sizeB, Functions[0])
+		d := o.Digest("")
+		b := buffer.NewCASBufferFromByteSlice(d, o.Data, buffer.UserProvided)
+		go w.writeOverlapWorker(d, b, done)
+		for i := 0; i < 20000; i++ {
+			select {
+			case errB = <-done:
+				joined = true
+			default:
+			}
+			if joined {
+				break
+			}
+			if found, bl := goroutineState("lstore.(*World).writeOverlapWorker"); found && bl {
+				blocked = true
+				break
+			}
+			runtime.Gosched()
+			if i > 100 {
+				time.Sleep(50 * time.Microsecond)
+			}
+		}
+		w.logf("put (second client, size %d) issued while a data write [%d,%d) was in flight; completed meanwhile=%v, waiting for a mutex=%v", sizeB, off, off+int64(len(p)), joined, blocked)
+	}
+	dev.OnWriteInFlight = hook
+	op()
+	dev.OnWriteInFlight = nil
+	if !fired {
+		return false, false
+	}
+	if !joined {
+		errB = <-done
+	}
+	u := &Upload{N: len(w.Uploads), Obj: o, Instance: "", Data: o.Data, Variant: "good", SharedSectorWith: -1,
+		StartSeq: w.St.Media.Log.Len(), NewBlocksAtStart: w.St.Alloc.NewBlockCalls, PopFrontsAtStart: w.St.BL.PopFronts}
+	w.Uploads = append(w.Uploads, u)
+	key := w.ModelKey(o, "")
+	w.attempted[key] = append(w.attempted[key], u)
+	if errB == nil {
+		u.State = "acked"
+		w.acked[key] = append(w.acked[key], u)
+		w.logf("put#%d (second client, overlapping a data write in flight) obj=%d size=%d acked", u.N, o.ID, sizeB)
+	} else {
+		u.State = "failed"
+		u.Err = errB
+		w.logf("put#%d (second client, overlapping a data write in flight) failed: %v", u.N, errB)
+	}
+	return fired, blocked
+}
+
+// writeOverlapWorker is the body of the second client's goroutine of
+// WithUploadDuringWrite (its name is looked for in goroutine dumps).
+func (w *World) writeOverlapWorker(d digest.Digest, b buffer.Buffer, done chan<- error) {
+	done <- w.St.BA.Put(w.Ctx, d, b)
+}
+
 // GetBadOffset reads with an out-of-domain offset: off < 0 is used as is,
 // off > 0 is added to the object's size. Whatever the consumer gets back
 // (an error, or an empty result) is not judged here (C09 owns that); bytes
@@ -1109,6 +1196,133 @@ func (w *World) OverlappedFindMissing(parent *Obj, instance string, items []ObjI
 	return present, err, overlapped
 }
 
+// OverlappedComposite runs two composite reads of the same parent by two
+// clients: the second one (child number want2 of the same partition) is
+// started on its own goroutine inside the slicing phase of the first, where
+// it misses the child entry under the read lock and then queues on the
+// refresh lock; `between` (other clients' uploads) runs in that window. Once
+// the first call has returned, the second one finds the parent in place and
+// normally the child entry recorded by the first call ("the parent object
+// was refreshed and sliced in the meantime"). Both results are judged like
+// any composite read: NOT_FOUND or exactly the designated slice. overlapped
+// reports whether the second client was really seen waiting for the lock.
+func (w *World) OverlappedComposite(parent *Obj, instance string, cuts []int, want, want2 int, between func()) (overlapped bool) {
+	parts := compositeParts(parent.Data, cuts)
+	if want2 >= len(parts) {
+		want2 = len(parts) - 1
+	}
+	child2 := parts[want2]
+	child2Digest := hx.Dig(instance, parent.Fn, child2)
+	sl2 := &compositeSlicer{w: w, instance: instance, fn: parent.Fn, cuts: cuts, want: want2}
+	type cres struct {
+		data []byte
+		err  error
+	}
+	done := make(chan cres, 1)
+	started, joined := false, false
+	var res cres
+	failsBefore := w.St.Alloc.NewBlockFailures
+	envDuring := false
+	join := func() {
+		if started && !joined {
+			res = <-done
+			joined = true
+		}
+	}
+	during := func() {
+		started = true
+		go w.overlapCompositeWorker(parent.Digest(instance), child2Digest, sl2, func(d []byte, e error) { done <- cres{d, e} })
+		for i := 0; i < 20000; i++ {
+			select {
+			case res = <-done:
+				joined = true
+			default:
+			}
+			if joined {
+				break
+			}
+			if found, blocked := goroutineState("lstore.(*World).overlapCompositeWorker"); found && blocked {
+				overlapped = true
+				break
+			}
+			runtime.Gosched()
+			if i > 100 {
+				time.Sleep(50 * time.Microsecond)
+			}
+		}
+		w.logf("composite(second client, parent=%d child #%d) started; waiting for the refresh lock=%v", parent.ID, want2, overlapped)
+		if between != nil {
+			between()
+		}
+		envDuring = w.Closed || w.deviceFaultsArmed() || w.Corrupt
+	}
+	w.afterCompositeCall = join
+	w.GetFromCompositeDuring(parent, instance, cuts, want, during)
+	w.afterCompositeCall = nil
+	if !started {
+		return false
+	}
+	join()
+	if sl2.parent != nil {
+		// The second client's slicer ran: its slices may have been recorded.
+		for i := range sl2.slices {
+			o := w.objForSlice(parent.Fn, sl2.sliceDat[i])
+			w.derived[w.ModelKey(o, instance)] = sl2.sliceDat[i]
+		}
+	}
+	if res.err != nil {
+		w.logf("composite(second client) parent=%d cuts=%v want=%d -> %v", parent.ID, cuts, want2, res.err)
+		if status.Code(res.err) == codes.NotFound || envDuring {
+			return overlapped
+		}
+		// (The second client looks the parent up only after the first call
+		// has returned and nothing else runs until it is joined: it is judged
+		// like a sequential composite read.)
+		w.classifyReadErr("GetFromComposite (second client)", parent, instance, res.err, failsBefore)
+		return overlapped
+	}
+	w.logf("composite(second client) parent=%d cuts=%v want=%d -> %d bytes", parent.ID, cuts, want2, len(res.data))
+	if !bytes.Equal(res.data, child2) {
+		w.fatalf("GetFromComposite(parent=%d, cuts=%v, child #%d) by a second client overlapping another composite read returned %s, want exactly the designated slice %s", parent.ID, cuts, want2, brief(res.data), brief(child2))
+	}
+	pkey := w.ModelKey(parent, instance)
+	if len(w.acked[pkey]) == 0 && (w.Epoch == 0 || len(w.attempted[pkey]) == 0) {
+		ck := w.ModelKey(&Obj{Fn: parent.Fn, Hash: child2Digest.GetHashString(), Size: int64(len(child2))}, instance)
+		if _, ok := w.derived[ck]; !ok {
+			if _, ok := w.derived[pkey]; !ok {
+				w.fatalf("GetFromComposite (second client) returned data although the parent object %d was never uploaded", parent.ID)
+			}
+		}
+	}
+	return overlapped
+}
+
+// compositeParts partitions data at cuts exactly like compositeSlicer does.
+func compositeParts(data []byte, cuts []int) [][]byte {
+	bounds := append(append([]int{}, cuts...), len(data))
+	prev := 0
+	var parts [][]byte
+	for _, c := range bounds {
+		if c > len(data) {
+			c = len(data)
+		}
+		if c < prev {
+			continue
+		}
+		parts = append(parts, data[prev:c])
+		prev = c
+	}
+	return parts
+}
+
+// overlapCompositeWorker is the body of the second client's goroutine of
+// OverlappedComposite (its name is looked for in goroutine dumps).
+func (w *World) overlapCompositeWorker(parentDigest, childDigest digest.Digest, sl *compositeSlicer, report func([]byte, error)) {
+	b := w.St.BA.GetFromComposite(w.Ctx, parentDigest, childDigest, sl)
+	data, err := b.ToByteSlice(1 << 26)
+	report(data, err)
+}
+
 // overlapFMWorker is the body of the second client's goroutine (its name
 // is looked for in goroutine dumps).
 func (w *World) overlapFMWorker(set digest.Set, report func(digest.Set, error)) {
@@ -1300,6 +1514,9 @@ func (w *World) objForSlice(fn remoteexecution.DigestFunction_Value, data []byte
 func (w *World) CheckMonitors() {
 	if v := w.St.Violations(); len(v) > 0 {
 		w.fatalf("monitor violation: %s", strings.Join(v, "; "))
+	}
+	if w.Sy != nil && w.Sy.SyncCompletedWithoutSuccess != "" {
+		w.fatalf("monitor violation: %s", w.Sy.SyncCompletedWithoutSuccess)
 	}
 	if !w.Corrupt {
 		if msgs := w.St.ErrLog.Take(); len(msgs) > 0 {
